@@ -284,10 +284,13 @@ class DelAttrMethod(MethodDescriptor):
                     invalidate_attrs(self, attr)
                 return None
 
+            # As in the constructor, defaults are prepared before being stored.
             return mutate_attr(
                 obj=self,
                 attr=attr,
-                value=default,
+                value=prepare_attr_value(
+                    attr_spec=attr_spec, instance=self, value=default
+                ),
                 inplace=True,
                 force=True,
                 skip_invalidation=skip_invalidation,
